@@ -13,9 +13,14 @@
    blocks a block needs are listed in its marker). The first block is the preamble. *)
 (* == block preamble == *)
 From Coq Require Import List NArith ZArith Bool Lia.
+From Coq Require Strings.String.
 From NextestModel Require Import Base.Tac.
 From NextestModel Require gen.GenDecisions.
 From NextestModel Require Model.Result Model.Dispatcher Model.Junit Model.UnitTimers Model.Filter Model.FilterFull.
+From NextestModel Require Model.Backoff Model.CliRun Proofs.CliRun.
+From NextestModel Require Model.AttemptDecision Proofs.AttemptDecision.
+From NextestModel Require Model.Overrides Model.Scripts.
+From NextestModel Require Model.SpawnSetup Proofs.SpawnSetup.
 Import ListNotations.
 Open Scope N_scope.
 
@@ -26,6 +31,15 @@ Module MJ := NextestModel.Model.Junit.
 Module MU := NextestModel.Model.UnitTimers.
 Module MF := NextestModel.Model.FilterFull.
 Module MFl := NextestModel.Model.Filter.
+Module MB := NextestModel.Model.Backoff.
+Module MC := NextestModel.Model.CliRun.
+Module PC := NextestModel.Proofs.CliRun.
+Module MA := NextestModel.Model.AttemptDecision.
+Module PA := NextestModel.Proofs.AttemptDecision.
+Module MO := NextestModel.Model.Overrides.
+Module MSc := NextestModel.Model.Scripts.
+Module MSp := NextestModel.Model.SpawnSetup.
+Module PSp := NextestModel.Proofs.SpawnSetup.
 
 (* boolean comparisons in hypotheses -> propositions lia understands *)
 Ltac b2p :=
@@ -487,3 +501,252 @@ Proof.
   intros. unfold part_input, MFl.filter_match.
   destruct pb as [b|]; [destruct (MFl.part_match b cur name) as [ok cur'] |]; bridge.
 Qed.
+
+(* ---------------------------------------------------------------- command line -> runner (Model/CliRun.v) *)
+(* == block conv_cli == *)
+Definition fmt_to_model (f : G.MessageFormat) : MC.msg_format :=
+  match f with
+  | G.MessageFormat_Human => MC.FHuman
+  | G.MessageFormat_LibtestJson => MC.FLibtestJson
+  | G.MessageFormat_LibtestJsonPlus => MC.FLibtestJsonPlus
+  end.
+Definition cap_to_model (c : G.CaptureStrategy) : MC.capture :=
+  match c with
+  | G.CaptureStrategy_Split => MC.CapSplit
+  | G.CaptureStrategy_Combined => MC.CapCombined
+  | G.CaptureStrategy_None => MC.CapNone
+  end.
+Definition threads_to_model (t : G.TestThreads) : MC.threads :=
+  match t with G.TestThreads_Count n => MC.TCount n | G.TestThreads_NumCpus => MC.TNumCpus end.
+Definition mf_to_model (m : G.MaxFail) : option N :=
+  match m with G.MaxFail_Count n => Some n | G.MaxFail_All => None end.
+Definition retry_policy_to_model (p : G.RetryPolicy) : MB.policy :=
+  match p with
+  | G.RetryPolicy_Fixed c d j => MB.Fixed c d j
+  | G.RetryPolicy_Exponential c d j m => MB.Exponential c d j m
+  end.
+Definition opts_to_model (o : G.TestRunnerOpts) : MC.run_opts :=
+  MC.mk_run_opts (G.TestRunnerOpts_no_run o) (option_map threads_to_model (G.TestRunnerOpts_test_threads o))
+    (G.TestRunnerOpts_retries o) (G.TestRunnerOpts_fail_fast o) (G.TestRunnerOpts_no_fail_fast o)
+    (option_map mf_to_model (G.TestRunnerOpts_max_fail o)).
+(* what TestRunnerBuilder::build stores in the runner, given the profile's values *)
+Definition settings_of_builder (pt : G.TestThreads) (pm : G.MaxFail) (ncpus : N) (b : G.TestRunnerBuilder)
+  : MC.runner_settings :=
+  MC.mk_runner_settings (cap_to_model (G.build_capture_strategy b)) (G.build_test_threads b pt ncpus)
+    (mf_to_model (G.build_max_fail b pm)) (option_map retry_policy_to_model (G.build_force_retries b)).
+
+(* == block cap_strat (needs conv_cli) == *)
+(* the capture strategy App::exec_run hands to TestRunnerOpts::to_builder *)
+Lemma gen_cap_strat_is_model :
+  forall nc f, cap_to_model (G.exec_run_cap_strat nc f) = MC.capture_strategy_of nc (fmt_to_model f).
+Proof. bridge. Qed.
+
+(* == block build_test_threads (needs conv_cli) == *)
+(* TestRunnerBuilder::build: the value stored in TestRunnerInner.test_threads *)
+Lemma gen_build_test_threads_is_model :
+  forall b pt ncpus,
+    G.build_test_threads b pt ncpus =
+    MC.effective_test_threads (cap_to_model (G.TestRunnerBuilder_capture_strategy b))
+      (option_map threads_to_model (G.TestRunnerBuilder_test_threads b)) (threads_to_model pt) ncpus.
+Proof. bridge. Qed.
+
+(* == block runner_settings (needs conv_cli) == *)
+(* exec_run's capture strategy -> to_builder -> build, end to end: what the runner is built with as a
+   function of the command line, the profile's test-threads / max-fail and the CPU count *)
+Lemma gen_runner_settings_is_model :
+  forall o nc f pt pm ncpus,
+    option_map (settings_of_builder pt pm ncpus) (G.TestRunnerOpts_to_builder o (G.exec_run_cap_strat nc f)) =
+    MC.runner_of (opts_to_model o) nc (fmt_to_model f) (threads_to_model pt) (mf_to_model pm) ncpus.
+Proof. bridge. Qed.
+
+(* == block no_capture_serial (needs conv_cli runner_settings) == *)
+(* C08 at the level of the source text: with --no-capture the runner is built with test_threads = 1,
+   for every message format and every other option *)
+Lemma gen_no_capture_serial :
+  forall o f pt ncpus b,
+    G.TestRunnerOpts_to_builder o (G.exec_run_cap_strat true f) = Some b ->
+    G.build_test_threads b pt ncpus = 1 /\ G.build_capture_strategy b = G.CaptureStrategy_None.
+Proof.
+  intros o f pt ncpus b H.
+  pose proof (gen_runner_settings_is_model o true f pt G.MaxFail_All ncpus) as E. rewrite H in E. cbn [option_map] in E.
+  symmetry in E. destruct (PC.runner_no_capture _ _ _ _ _ _ E) as [Hc Ht].
+  cbn [settings_of_builder MC.rs_capture MC.rs_test_threads] in Hc, Ht. split; [exact Ht|].
+  destruct (G.build_capture_strategy b); cbn in Hc; congruence.
+Qed.
+
+(* == block command_exit (needs conv_stats exec_run_exit) == *)
+(* `cargo nextest run` (the Command::Run arm of AppOpts::exec) and `cargo ntr` (NtrOpts::exec): what each does
+   with the value of App::exec_run, followed by what main() does with the result *)
+Definition entry_gen_exit (e : MC.entry) (r : Z + G.ExpectedError) : Z + G.ExpectedError :=
+  match e with MC.EntryNextestRun => G.command_run_exit r | MC.EntryNtr => G.ntr_exit r end.
+Lemma gen_command_exit_is_model :
+  forall e s p,
+    process_exit (entry_gen_exit e (G.exec_run_exit s p)) =
+    MC.entry_exit e (MR.summarize_final (stats_to_model s)) (policy_to_model p).
+Proof. bridge. Qed.
+
+(* ---------------------------------------------------------------- the decision after each attempt *)
+(* == block after_attempt (needs conv_result) == *)
+(* what a branch of the `if` chain at the end of run_test_instance's loop body amounts to: leaving the loop
+   (Finished is sent after it) or going round again having sent AttemptFailedWillRetry; anything else is
+   not a decision the model knows *)
+Module SLa. Import Coq.Strings.String.
+  Definition attempt_failed_will_retry : string := "AttemptFailedWillRetry"%string.
+End SLa.
+Definition exit_to_model (x : G.LoopExit * list String.string) : option MA.after :=
+  match x with
+  | (G.LoopExit_Break, nil) => Some MA.AFinish
+  | (G.LoopExit_Continue, cons e nil) =>
+      if String.eqb e SLa.attempt_failed_will_retry then Some MA.ARetry else None
+  | _ => None
+  end.
+Lemma gen_after_attempt_is_model :
+  forall r attempt total,
+    exit_to_model (G.run_test_instance_after_attempt r (G.mk_RetryData attempt total)) =
+    Some (MA.after_attempt (MR.is_success (result_to_model r)) attempt total).
+Proof. bridge. Qed.
+
+(* == block attempt_loop (needs conv_result is_success after_attempt) == *)
+(* one iteration of the loop C07's theorems are about (Model/Backoff.v attempt_loop, instantiated with the
+   generated result type and the generated is_success) IS the generated decision *)
+Lemma gen_attempt_loop_step :
+  forall f attempt delay bs total outcome accept js,
+    MB.attempt_loop G.ExecutionResult G.ExecutionResult_is_success (S f) attempt delay bs total outcome accept js =
+    if (1 <? attempt) && negb (accept attempt) then (nil, MB.Refused)
+    else
+      let r := outcome attempt in
+      let rec := MB.Build_attempt_rec G.ExecutionResult attempt delay r in
+      match exit_to_model (G.run_test_instance_after_attempt r (G.mk_RetryData attempt total)) with
+      | Some MA.AFinish => (rec :: nil, MB.Finished)
+      | Some MA.ARetry =>
+          match MB.b_next (js attempt) bs with
+          | None => (rec :: nil, MB.Panicked)
+          | Some (d, bs') =>
+              let '(l, e) := MB.attempt_loop G.ExecutionResult G.ExecutionResult_is_success f (attempt + 1) d bs' total
+                               outcome accept js in
+              (rec :: l, e)
+          end
+      | None => (rec :: nil, MB.Panicked)
+      end.
+Proof.
+  intros. rewrite PA.attempt_loop_step. cbv zeta. rewrite gen_after_attempt_is_model.
+  rewrite <- gen_is_success_is_model. reflexivity.
+Qed.
+
+(* == block retry_policy (needs conv_cli) == *)
+(* `let retry_policy = self.force_retries.unwrap_or_else(|| settings.retries()); let total_attempts = retry_policy.count() + 1;` *)
+Lemma gen_retry_policy_is_model :
+  forall force own,
+    retry_policy_to_model (G.run_test_instance_retry_policy force own) =
+    MB.effective_policy (option_map retry_policy_to_model force) (retry_policy_to_model own).
+Proof. bridge. Qed.
+Lemma gen_total_attempts_is_model :
+  forall force own,
+    G.run_test_instance_total_attempts force own =
+    MB.p_count (MB.effective_policy (option_map retry_policy_to_model force) (retry_policy_to_model own)) + 1.
+Proof. bridge. Qed.
+
+Lemma gen_retry_policy_and_total :
+  forall force own,
+    retry_policy_to_model (G.run_test_instance_retry_policy force own) =
+    MB.effective_policy (option_map retry_policy_to_model force) (retry_policy_to_model own) /\
+    G.run_test_instance_total_attempts force own =
+    MB.p_count (MB.effective_policy (option_map retry_policy_to_model force) (retry_policy_to_model own)) + 1.
+Proof. intros. split; [apply gen_retry_policy_is_model | apply gen_total_attempts_is_model]. Qed.
+
+(* == block forced_retries (needs conv_cli runner_settings retry_policy) == *)
+(* C07 on the source text, end to end: `--retries n` on the command line makes every test run at most n + 1
+   attempts with the delay-free policy, whatever its own policy *)
+Lemma gen_forced_retries :
+  forall o cs b n own,
+    G.TestRunnerOpts_to_builder o cs = Some b ->
+    G.TestRunnerOpts_retries o = Some n ->
+    retry_policy_to_model (G.run_test_instance_retry_policy (G.build_force_retries b) own) = MB.new_without_delay n /\
+    G.run_test_instance_total_attempts (G.build_force_retries b) own = n + 1.
+Proof.
+  intros o cs b n own Hb Hn. revert Hb. destruct o as [nr tt rt ff nff mf nt]. cbn in Hn. subst rt.
+  bridge_norm. destruct nr; [discriminate|]. intro Hb. injection Hb as <-.
+  repeat (bridge_case; cbv beta iota); split; reflexivity.
+Qed.
+
+(* ---------------------------------------------------------------- platform guards (Model/Overrides.v, Model/Scripts.v) *)
+(* == block conv_platform == *)
+Definition is_host (p : G.BuildPlatform) : bool :=
+  match p with G.BuildPlatform_Host => true | G.BuildPlatform_Target => false end.
+Definition platform_of (host : bool) : G.BuildPlatform :=
+  if host then G.BuildPlatform_Host else G.BuildPlatform_Target.
+Definition state_to_model (s : G.FinalConfig) : MO.ostate :=
+  MO.Build_ostate (G.FinalConfig_host_eval s) (G.FinalConfig_host_test_eval s) (G.FinalConfig_target_eval s).
+
+(* == block override_platform_guard (needs conv_platform) == *)
+(* the `continue`s at the head of the loop over the overrides in TestSettings::new that look at the platform: an
+   override is considered for a test only if host_eval holds AND the evaluation for the test's own build platform
+   (host_test_eval for host binaries, target_eval for target binaries) holds *)
+Lemma gen_override_platform_guard_is_model :
+  forall st p, G.override_platform_guard st p = MO.platform_ok (state_to_model st) (is_host p).
+Proof. bridge. Qed.
+(* ... which is the platform part of the model's [skips] (the four `continue`s) for every override and test *)
+Lemma gen_override_skips_is_model :
+  forall e t st o,
+    MO.skips e t (state_to_model st, o) =
+    negb (G.override_platform_guard st (platform_of (MO.t_host t)))
+    || match MO.filter_of o with Some f => negb (MO.e_filter e f (MO.t_id t)) | None => false end.
+Proof.
+  intros e t st o. unfold MO.skips. destruct st as [h ht tg], t as [id host].
+  cbn [MO.t_host MO.t_id state_to_model MO.st_host MO.st_host_test MO.st_target
+       G.FinalConfig_host_eval G.FinalConfig_host_test_eval G.FinalConfig_target_eval].
+  destruct (match MO.filter_of o with Some f => negb (MO.e_filter e f id) | None => false end);
+    destruct h, ht, tg, host; reflexivity.
+Qed.
+
+(* == block script_platform_guard (needs conv_platform) == *)
+(* CompiledProfileScripts::is_enabled: the three `return false`s before the filterset is looked at *)
+Lemma gen_script_platform_guard_is_model :
+  forall st p flt setup id,
+    MSc.rule_matches
+      (MSc.mkrule (G.FinalConfig_host_eval st) (G.FinalConfig_host_test_eval st) (G.FinalConfig_target_eval st) flt setup)
+      (MSc.mkq id (is_host p)) =
+    G.script_platform_guard st p && match flt with Some f => f (MSc.mkq id (is_host p)) | None => true end.
+Proof.
+  intros st p flt setup id. destruct flt as [f|]; [destruct (f (MSc.mkq id (is_host p))) eqn:E|];
+    unfold MSc.rule_matches; cbn [MSc.r_filter MSc.r_host_eval MSc.r_host_test_eval MSc.r_target_eval MSc.q_host];
+    try rewrite E; bridge.
+Qed.
+
+(* ---------------------------------------------------------------- spawn-time set-up (Model/SpawnSetup.v, Model/Command.v) *)
+(* == block spawn_setup (needs conv_cli) == *)
+(* the ordered, guarded calls run_test_inner / TestCommand::spawn / imp::spawn / set_process_group make on the
+   Command satisfy everything C15 asks of the set-up, for every capture strategy (the list is closed once the
+   strategy is known: evaluation decides) *)
+Lemma gen_spawn_setup_is_model :
+  forall cap, MSp.setup_ok (cap_to_model cap) (G.run_test_inner_setup cap) = true.
+Proof. intros cap. destruct cap; vm_compute; reflexivity. Qed.
+Lemma gen_spawn_setup_stdin_and_group :
+  forall cap,
+    MSp.stdin_null (G.run_test_inner_setup cap) = true /\ MSp.own_process_group (G.run_test_inner_setup cap) = true.
+Proof. intros cap. exact (PSp.setup_ok_stdin_and_group _ _ (gen_spawn_setup_is_model cap)). Qed.
+
+(* ---------------------------------------------------------------- threads-required (Model/CliRun.v, Model/FutureQueue.v) *)
+(* == block threads_required (needs conv_cli) == *)
+Definition tr_to_model (r : G.ThreadsRequired) : MC.threads_required :=
+  match r with
+  | G.ThreadsRequired_Count n => MC.RCount n
+  | G.ThreadsRequired_NumCpus => MC.RNumCpus
+  | G.ThreadsRequired_NumTestThreads => MC.RNumTestThreads
+  end.
+(* the weight TestRunnerInner::execute gives a test in the queue: ThreadsRequired::compute of the test's setting
+   against `self.test_threads`, the RUNNER's thread count -- the very value that is the queue's global limit *)
+Lemma gen_threads_required_is_model :
+  forall r runner_threads ncpus,
+    G.execute_threads_required r runner_threads ncpus = MC.threads_required_weight (tr_to_model r) runner_threads ncpus.
+Proof. bridge. Qed.
+Lemma gen_queue_limit_is_runner_threads :
+  forall runner_threads, G.execute_queue_limit runner_threads = runner_threads.
+Proof. bridge. Qed.
+(* the queue of C08 ([fq_new limit groups items] with weight = threads-required) as execute builds it: a test that
+   requires "num-test-threads" weighs exactly the limit, under --no-capture too (limit 1) *)
+Lemma gen_num_test_threads_fills_queue :
+  forall runner_threads ncpus,
+    G.execute_threads_required G.ThreadsRequired_NumTestThreads runner_threads ncpus =
+    G.execute_queue_limit runner_threads.
+Proof. bridge. Qed.
